@@ -11,7 +11,9 @@ if [ "$ok" = 1 ] && [ -f ../.cache/ocaml.stamp ] && [ "$(cat ../.cache/ocaml.sta
 for fam in mem fetch fmt hyb blk lin; do
   X=$(echo ${fam:0:1} | tr a-z A-Z)${fam:1}X
   coqc -Q ../coq FV ../coq/Extract/$X.v > /dev/null
-  ocamlfind ocamlopt -w -a -O2 -o ${fam}_driver ${fam}_model.mli ${fam}_model.ml ${fam}_driver.ml 2>/dev/null || \
-  ocamlfind ocamlopt -w -a -o ${fam}_driver ${fam}_model.mli ${fam}_model.ml ${fam}_driver.ml
+  # build beside the target and rename: a check that is running keeps its (old) binary
+  ocamlfind ocamlopt -w -a -O2 -o ${fam}_driver.new ${fam}_model.mli ${fam}_model.ml ${fam}_driver.ml 2>/dev/null || \
+  ocamlfind ocamlopt -w -a -o ${fam}_driver.new ${fam}_model.mli ${fam}_model.ml ${fam}_driver.ml
+  mv -f ${fam}_driver.new ${fam}_driver
 done
 echo "$stamp" > ../.cache/ocaml.stamp
